@@ -171,7 +171,7 @@ func (g *gen) hashLit() string {
 	for i := 0; i < n; i++ {
 		var k string
 		if g.cfg.TieKeys && g.c.Intn(3) == 1 {
-			k = g.pick(`1`, `"1"`, `1.0`, `"a"`, `"a"`, `2`, `"2"`, `true`, `"true"`, `"01"`, `"1.0"`, `"+1"`, `" 1"`, `"1e0"`, `"A"`, `"2.50"`, `2.5`, `"2.5"`)
+			k = g.pick(`1`, `"1"`, `1.0`, `"a"`, `"a"`, `2`, `"2"`, `true`, `"true"`, `"01"`, `"1.0"`, `"+1"`, `" 1"`, `"1e0"`, `"A"`, `"2.50"`, `2.5`, `"2.5"`, `"nan"`, `"NaN"`, `"inf"`, `"-0"`, `"1e400"`, `"0x1"`, `"80"`, `"443"`, `"53/udp"`, `80`, `443`)
 		} else {
 			k = g.pick(`"a"`, `"b"`, `"c"`, `"k"`, `1`, `2`, `3`, `"zz"`, `10`, `"10"`, `2.5`, `true`)
 			// avoid accidental ties unless asked for
